@@ -27,15 +27,21 @@ DECL_PKG = {'xcolor': ['\\textcolor{red}{x}', '\\color{red}', '\\colorbox{c}{x}'
             'glossaries': ['\\glsdisp{l}{x}'],
             'xspace': ['\\xspace{}']}
 DECL_ENV = ['itemize', 'enumerate', 'figure', 'table', 'tabular{c}', 'minipage{3cm}', 'verbatim']
-PACKS = ['*', '*', '', 'xcolor,amsmath', 'hyperref,graphicx,tikz', 'biblatex,amsthm,listings', 'babel,glossaries,xspace']
+PACKS = ['*', '*', '', 'xcolor,amsmath', 'hyperref,graphicx,tikz', 'biblatex,amsthm,listings', 'babel,glossaries,xspace',
+         '*,amsmath', 'babel,xcolor,*', 'amsthm,*,tikz']
 DCLS = ['', '', 'article', 'scrartcl', 'book']
 LET = 'abcdefghijklmnopqrstuvwxyz'
 
 
 def pkgset(pack):
-    if pack == '*':
-        return set(DECL_PKG)
-    return set(p for p in pack.split(',') if p)
+    # a list of package names and placeholders: '*' stands for the default list, wherever it is in the list
+    out = set()
+    for p in pack.split(','):
+        if p == '*':
+            out |= set(DECL_PKG)
+        elif p:
+            out.add(p)
+    return out
 
 
 def build(rnd, pack, dcls):
